@@ -64,6 +64,7 @@ pub const CORPUS: &[(&str, &str, &str, &[&str])] = &[
     ("sort-deep-comparator", "(define (lt2 a b) (< (host-op a) (host-op b)))\n(define (lt1 a b) (lt2 a b))\n(define (sorted xs) (sort xs (lambda (a b) (lt1 a b))))\n(define r43 (car (sorted (list 3 1 2))))\nr43", "1", &["lt2", "lt1", "sorted", "r43"]),
     ("parameterize-base", "(define r44 (parameterize ((base-param 'inner)) (list (base-param) (loop 10 0))))\n(list r44 (base-param))", "((inner 55) default)", &["r44"]),
     ("wind-in-function-with-host", "(define (w45 a) (dynamic-wind (lambda () 0) (lambda () (+ a (host-op a))) (lambda () (wind-out!))))\n(define r45 (list 1 (w45 3)))\nr45", "(1 7)", &["w45", "r45"]),
+    ("reader-zoo", "(define r46 (list #\\a #\\space (string-length \"a\\\"b\\n\") '#(1 2) (quote (a . b)) `(1 ,(+ 1 1) ,@(list 3)) -7 1/2 1.5e1 #t #false 'sym #\\λ #| block |# #;(dropped) (bytes 1 2)))\n(length r46)", "14", &["r46"]),
     ("callcc-reenter", "(define r36 (let ((k #f) (n 0)) (let ((v (+ 100 (call/cc (lambda (c) (set! k c) 0))))) (if (< n 3) (begin (set! n (+ n 1)) (k n)) (list v n)))))\nr36", "(103 3)", &["r36"]),
 ];
 
@@ -145,6 +146,14 @@ impl C07 {
                 for c in 0..calls {
                     plan.push(Planned { prog: pi, jit, kind: "host", at: c });
                 }
+                if !jit {
+                    // the text cut at every byte position (a torn submission)
+                    for b in 0..prog.1.len() as u64 {
+                        if prog.1.is_char_boundary(b as usize) {
+                            plan.push(Planned { prog: pi, jit, kind: "truncate", at: b });
+                        }
+                    }
+                }
                 let nforms = forms_of(prog.1).len() as u64;
                 for p in 0..=nforms {
                     plan.push(Planned { prog: pi, jit, kind: "compile", at: p });
@@ -171,6 +180,7 @@ fn program_with_fault(pi: usize, kind: &str, at: u64) -> String {
             forms.insert(pos, bad.to_string());
             forms.join("\n")
         }
+        "truncate" => src[..(at as usize).min(src.len())].to_string(),
         _ => src.to_string(),
     }
 }
@@ -395,6 +405,7 @@ impl Scenario for C07 {
                     "compile" => "compile",
                     "runtime" => "runtime",
                     "own" => "own",
+                    "truncate" => "truncate",
                     _ => "interrupt",
                 },
                 at: o["at"].as_u64().unwrap_or(0),
@@ -419,6 +430,7 @@ impl Scenario for C07 {
                         "compile" => "compile",
                         "runtime" => "runtime",
                         "own" => "own",
+                        "truncate" => "truncate",
                         _ => "interrupt",
                     },
                     at: o["at"].as_u64().unwrap_or(0),
